@@ -114,6 +114,8 @@ def _patches():
         with open(meta) as f:
             m = json.load(f)
         d = os.path.dirname(meta)
+        if m.get("out_of_domain"):
+            continue  # recorded, but outside the input domain (DESIGN 9): not expected to be detected
         out.append({"id": os.path.basename(d), "property": m["property"], "patch": os.path.join(d, "patch.diff"),
                     "kind": "seeded", "run_checks": m.get("run_checks") or [m["property"]]})
     return out
